@@ -224,6 +224,8 @@ def _reaches_site(F, fn, with_site, depth=4):
         done.add(k)
         if k in with_site:
             return True
+        # closures defined in the function (e.g. `unwrap_or_else(|| panic!(..))`) are part of it
+        todo.extend((c, d) for c in F.fns if c.startswith(k + '::{closure'))
         if d < depth:
             for blk in F.fns[k]['body']['blocks']:
                 t = blk['term']
